@@ -1,0 +1,73 @@
+//go:build verif
+
+package fzf
+
+import (
+	"net"
+	"time"
+
+	"github.com/junegunn/fzf/src/util"
+)
+
+// Verification hook (build tag verif) for the --listen endpoint: handleHttpRequest with the REAL
+// Terminal.dumpStatus as its getHandler (as startHttpServer is given in Terminal.Loop), on a Terminal
+// that holds a fixed list. No logic beyond building the Terminal and recording what was passed on.
+// A panic inside handleHttpRequest / dumpStatus propagates to the caller.
+
+// VerifHTTPDumpResult is VerifHTTPResult plus the string dumpStatus returned.
+type VerifHTTPDumpResult struct {
+	VerifHTTPResult
+	State string
+}
+
+// VerifHandleHTTPDump serves one request read from conn. The list consists of items (all of them
+// matching, in input order, item i has index i), selected holds indices into items in the order of
+// selection, query is the input line and cy the cursor position.
+func VerifHandleHTTPDump(conn net.Conn, key string, items []string, selected []int, query string, cy int, ready bool) VerifHTTPDumpResult {
+	res := VerifHTTPDumpResult{}
+	its := make([]Item, len(items))
+	results := make([]Result, len(items))
+	for i, s := range items {
+		its[i].text = util.ToChars([]byte(s))
+		its[i].text.Index = int32(i)
+		results[i] = Result{item: &its[i]}
+	}
+	t := &Terminal{
+		merger:   NewMerger(nil, [][]Result{results}, false, false, revision{}, 0),
+		selected: make(map[int32]selectedItem),
+		input:    []rune(query),
+		cy:       cy,
+		count:    len(items),
+	}
+	base := time.Unix(1000000, 0)
+	for k, i := range selected {
+		t.selected[int32(i)] = selectedItem{at: base.Add(time.Duration(k) * time.Millisecond), item: &its[i]}
+	}
+	size := 0
+	if ready {
+		size = 1
+	}
+	ch := make(chan []*action, size)
+	server := httpServer{
+		apiKey:        []byte(key),
+		actionChannel: ch,
+		getHandler: func(p getParams) string {
+			res.GetCalled = true
+			res.Limit = p.limit
+			res.Offset = p.offset
+			res.State = t.dumpStatus(p)
+			return res.State
+		},
+	}
+	res.Response = server.handleHttpRequest(conn)
+	select {
+	case acts := <-ch:
+		res.Delivered = true
+		for _, a := range acts {
+			res.ActionTypes = append(res.ActionTypes, int(a.t))
+			res.ActionArgs = append(res.ActionArgs, a.a)
+		}
+	default:
+	}
+	return res
+}
